@@ -1,0 +1,42 @@
+//go:build verif
+
+// Round-trip lemmas (C01) for /verif/engine (govc): each function composes the real encoder with the real decoder;
+// its contract (in contracts_verif.go) states that the composition is the identity. They are proved modularly, from
+// the contracts of Serialize and Decode*, and are compiled only with -tags verif.
+
+package datatype
+
+func lemmaRoundTripUnsigned32(v Unsigned32) (Type, error)   { return DecodeUnsigned32(v.Serialize()) }
+func lemmaRoundTripInteger32(v Integer32) (Type, error)     { return DecodeInteger32(v.Serialize()) }
+func lemmaRoundTripEnumerated(v Enumerated) (Type, error)   { return DecodeEnumerated(v.Serialize()) }
+func lemmaRoundTripFloat32(v Float32) (Type, error)         { return DecodeFloat32(v.Serialize()) }
+func lemmaRoundTripUnsigned64(v Unsigned64) (Type, error)   { return DecodeUnsigned64(v.Serialize()) }
+func lemmaRoundTripInteger64(v Integer64) (Type, error)     { return DecodeInteger64(v.Serialize()) }
+func lemmaRoundTripFloat64(v Float64) (Type, error)         { return DecodeFloat64(v.Serialize()) }
+func lemmaRoundTripTime(v Time) (Type, error)               { return DecodeTime(v.Serialize()) }
+func lemmaRoundTripOctetString(v OctetString) (Type, error) { return DecodeOctetString(v.Serialize()) }
+func lemmaRoundTripUTF8String(v UTF8String) (Type, error)   { return DecodeUTF8String(v.Serialize()) }
+func lemmaRoundTripDiameterIdentity(v DiameterIdentity) (Type, error) {
+	return DecodeDiameterIdentity(v.Serialize())
+}
+func lemmaRoundTripDiameterURI(v DiameterURI) (Type, error) { return DecodeDiameterURI(v.Serialize()) }
+func lemmaRoundTripIPFilterRule(v IPFilterRule) (Type, error) {
+	return DecodeIPFilterRule(v.Serialize())
+}
+func lemmaRoundTripQoSFilterRule(v QoSFilterRule) (Type, error) {
+	return DecodeQoSFilterRule(v.Serialize())
+}
+func lemmaRoundTripUnknown(v Unknown) (Type, error) { return DecodeUnknown(v.Serialize()) }
+func lemmaRoundTripIPv4(v IPv4) (Type, error)       { return DecodeIPv4(v.Serialize()) }
+func lemmaRoundTripIPv6(v IPv6) (Type, error)       { return DecodeIPv6(v.Serialize()) }
+func lemmaRoundTripAddress(v Address) (Type, error) { return DecodeAddress(v.Serialize()) }
+
+// lemmaDecodeSerialize: the other direction, for any decoder: whatever a decoder accepts serialises back to the
+// bytes it was decoded from.
+func lemmaDecodeSerialize(f DecoderFunc, b []byte) []byte {
+	r, err := f(b)
+	if err != nil {
+		return nil
+	}
+	return r.Serialize()
+}
